@@ -221,6 +221,28 @@ func init() {
 		}
 		return models["(*bufio.Writer).WriteString"](ex, fr, []Value{a[0], s})
 	}
+	m["(*bufio.Writer).Reset"] = func(ex *Exec, fr *frame, a []Value) Value {
+		p := a[0].(*Ptr)
+		if p.Obj == nil {
+			ex.goPanicRuntime("nil pointer dereference")
+		}
+		p.Obj.Ghost = &writerGhost{wr: a[1].(*Iface), buf: &Str{}} // discards unflushed data and the sticky error
+		return nil
+	}
+	m["(*bufio.Writer).Buffered"] = func(ex *Exec, fr *frame, a []Value) Value {
+		return ex.i64(int64(len(a[0].(*Ptr).Obj.Ghost.(*writerGhost).buf.B)))
+	}
+	m["(*bufio.Writer).Available"] = func(ex *Exec, fr *frame, a []Value) Value {
+		return ex.i64(int64(bufioSize - len(a[0].(*Ptr).Obj.Ghost.(*writerGhost).buf.B)))
+	}
+	m["(*bufio.Reader).Reset"] = func(ex *Exec, fr *frame, a []Value) Value {
+		p := a[0].(*Ptr)
+		if p.Obj == nil {
+			ex.goPanicRuntime("nil pointer dereference")
+		}
+		p.Obj.Ghost = &readerGhost{rd: a[1].(*Iface), buf: &Str{}}
+		return nil
+	}
 	m["(*bufio.Writer).WriteByte"] = func(ex *Exec, fr *frame, a []Value) Value {
 		r := models["(*bufio.Writer).WriteString"](ex, fr, []Value{a[0], &Str{B: []*Term{a[1].(*Term)}}}).(Tuple)
 		return r[1]
